@@ -2,7 +2,7 @@
 from __future__ import annotations
 
 import json
-from typing import Any
+from typing import Any, Optional
 
 from vlib import common, storeobs
 
@@ -13,11 +13,54 @@ C07_KINDS = {'seq', 'len', 'first', 'last', 'index', 'prev', 'next', 'iter', 'de
 C08_KINDS = {'position', 'index'}
 
 
-def set_load_factor(L: int) -> None:
+def set_load_factor(L: Any, layout: Optional[str] = None) -> None:
+    """Block size of the token store (the shipped value is 1000: small documents are one block).  `L` may be a pair
+    (L, layout): every freshly parsed store is then re-partitioned into the given block shape, see reshape()."""
+    if isinstance(L, (tuple, list)):
+        L, layout = L
     ts._LOAD_FACTOR = L
     ts._DOUBLE_LOAD_FACTOR = L * 2
     ts._HALF_LOAD_FACTOR = L // 2
     ts._ONE_HALF_LOAD_FACTOR = L + L // 2
+    from vlib import tree
+    tree.LAYOUT = (lambda store: reshape(store, layout)) if layout else None
+
+
+def reshape(store: Any, layout: str) -> None:
+    """Re-partition a store into blocks whose sizes alternate between the largest and the smallest size the store's
+    own invariant allows between edits (HALF < size < DOUBLE): 'bs' = big, small, big, ...; 'sb' = small, big, ...
+    These are the shapes edit histories leave behind (a block grown by insertions next to one shrunk by removals);
+    the next removal from a small block makes the store merge it with a big neighbour and rebalance the pair, the
+    next insertion into a big one makes it split.  Token order and identity are untouched."""
+    toks = list(store)
+    if not toks:
+        return
+    big, small = ts._DOUBLE_LOAD_FACTOR - 1, ts._HALF_LOAD_FACTOR + 1
+    sizes = [big, small] if layout == 'bs' else [small, big]
+    chunks = []
+    i = k = 0
+    while i < len(toks):
+        chunks.append(toks[i:i + sizes[k % 2]])
+        i += sizes[k % 2]
+        k += 1
+    if len(chunks) > 1 and len(chunks[-1]) <= ts._HALF_LOAD_FACTOR:
+        last = chunks.pop()
+        joined = chunks.pop() + last
+        if len(joined) < ts._DOUBLE_LOAD_FACTOR:
+            chunks.append(joined)
+        else:
+            chunks += [joined[:len(joined) // 2], joined[len(joined) // 2:]]
+    for t in toks:
+        t.store_handle = None
+    store._blocks[:] = [ts._StoreBlock.from_tokens(c, store, j) for j, c in enumerate(chunks)]
+
+
+# the rotation the model-level checks use: plain block sizes and adversarial shapes
+ROTATION = [2, (4, 'bs'), 1000, 3, (2, 'bs'), 4, (6, 'sb'), (3, 'bs'), (2, 'sb')]
+
+
+def rot(k: int) -> Any:
+    return ROTATION[k % len(ROTATION)]
 
 
 def replay(beh: list[dict], L: int, variant: int) -> dict:
